@@ -1,5 +1,5 @@
 (* C05 — Packets arrive whole, in order and unaltered however the transport fragments. *)
-From V Require Import lib.Base model.Channel proofs.ChannelP proofs.ChannelW proofs.ChannelTie gen.Gen_channel gen.Gen_stream.
+From V Require Import lib.Base model.Channel model.ChannelS proofs.ChannelP proofs.ChannelW proofs.ChannelSP proofs.ChannelTie gen.Gen_channel gen.Gen_stream.
 Open Scope N_scope.
 
 Section C05.
@@ -65,6 +65,30 @@ Print Assumptions c05_delivery.
 Print Assumptions c05_fault_prefix.
 Print Assumptions c05_cut_exact.
 
+(* the closed state ("... yields EOFError at the reader or writer and a closed stream"): a session is any sequence of sends and
+   receives on one channel (model/ChannelS.v: one stream, both directions, any zlib, any parameters, either tolerance and
+   compression setting, any transport behaviour). An operation on an open stream reports EOFError exactly when it leaves the stream
+   closed; once any operation has reported EOFError every later one does, and the transport is exactly as the earlier operations
+   left it (nothing further read, written or consumed); a session that never reported EOFError is still open; a packet the header
+   cannot describe is refused without touching anything. *)
+Theorem c05_eof_iff_closed : forall compress decompress P tol cmp s o s' r,
+  closed s = false -> sstep compress decompress P tol cmp s o = (s', r) -> (r = OEOF <-> closed s' = true).
+Proof. exact eof_iff_closed. Qed.
+Theorem c05_closed_stream_is_final : forall compress decompress P tol cmp before after s s1 r1,
+  srun compress decompress P tol cmp s before = (s1, r1) -> In OEOF r1 ->
+  srun compress decompress P tol cmp s (before ++ after) = (s1, r1 ++ map (fun _ => OEOF) after).
+Proof. exact after_eof_everything_fails. Qed.
+Theorem c05_open_until_eof : forall compress decompress P tol cmp ops s s' rs,
+  closed s = false -> srun compress decompress P tol cmp s ops = (s', rs) -> ~ In OEOF rs -> closed s' = false.
+Proof. exact open_until_eof. Qed.
+Theorem c05_rejected_packet_touches_nothing : forall compress decompress P tol cmp s d e s',
+  closed s = false -> sstep compress decompress P tol cmp s (SSend d) = (s', OErr e) -> s' = s.
+Proof. exact rejected_packet_touches_nothing. Qed.
+Print Assumptions c05_eof_iff_closed.
+Print Assumptions c05_closed_stream_is_final.
+Print Assumptions c05_open_until_eof.
+Print Assumptions c05_rejected_packet_touches_nothing.
+
 (* the generated parameters of the current tree satisfy the side conditions, for both stream kinds *)
 Theorem c05_generated_params_ok :
   (hdr_size Pgen_sock = 5 /\ hdr_size Pgen_sock + nlen (flusher Pgen_sock) <= chunk Pgen_sock) /\
@@ -96,3 +120,16 @@ Example c05_writer_fault_sample :
   | _, _ => False
   end.
 Proof. vm_compute. split; reflexivity. Qed.
+
+(* non-vacuity for the closed state: the peer's stream holds one whole frame and 3 bytes of a second; we send a packet (written in
+   two pieces), receive the whole frame, meet the end inside the second, and then a send and a receive both fail at once: the wire
+   still holds exactly our one frame, and the unused write behaviour [WSent 1] is still unused *)
+Example c05_session_sample :
+  match frame (fun x => x) Psmall true [x61], frame (fun x => x) Psmall true [x62; x63] with
+  | Ok f1, Ok f2 =>
+      let s0 := {| closed := false; revs := [RData 4; RTimeout]; avail := f1 ++ nfirst 3 f2; wevs := [WSent 4; WSent 100; WSent 1]; wire := [] |} in
+      let '(s, outs) := srun (fun x => x) (fun x => Ok x) Psmall true true s0 [SSend [x7a]; SRecv; SRecv; SSend [x7a]; SRecv] in
+      outs = [OSent; OGot [x61]; OEOF; OEOF; OEOF] /\ closed s = true /\ wire s = [x00; x00; x00; x01; x00; x7a; x0a] /\ wevs s = [WSent 1]
+  | _, _ => False
+  end.
+Proof. vm_compute. repeat split. Qed.
